@@ -10,6 +10,8 @@ struct Yield {}
 impl EventSource for Yield {
     fn subscribe(&mut self, co: CoroutineImpl) {
         // just re-push the coroutine to the ready list
+        #[cfg(may_verif)]
+        may_queue::verif::point(may_queue::verif::site::YIELD_SUBSCRIBE, 0);
         get_scheduler().schedule(co);
     }
 }
@@ -20,6 +22,8 @@ impl EventSource for Yield {
 #[inline]
 pub fn yield_with<T: EventSource>(resource: &T) {
     let cancel = current_cancel_data();
+    #[cfg(may_verif)]
+    may_queue::verif::point(may_queue::verif::site::YIELD_WITH_ENTER, 0);
     // if cancel detected in user space
     // no need to get into kernel any more
     if unlikely(cancel.is_canceled()) {
@@ -33,6 +37,8 @@ pub fn yield_with<T: EventSource>(resource: &T) {
         )
     };
     let es = EventSubscriber::new(r);
+    #[cfg(may_verif)]
+    may_queue::verif::point(may_queue::verif::site::YIELD_WITH_BEFORE, 0);
     co_yield_with(es);
 
     resource.yield_back(cancel);
@@ -65,6 +71,8 @@ pub fn yield_with_io<T: EventSource>(resource: &T, is_coroutine: bool) {
         crate::io::thread::PROXY_CO_SENDER.with(|tx| {
             tx.send(es).unwrap();
         });
+        #[cfg(may_verif)]
+        may_queue::verif::point(may_queue::verif::site::IOTHREAD_SENT, 0);
         std::thread::park();
     }
 }
